@@ -976,6 +976,9 @@ fn parent_main() {
             child = Some(spawn_child(case["mem_mb"].as_u64().unwrap_or(mem_mb) * 1024));
         }
         let ch = child.as_mut().unwrap();
+        if let Ok(mut g) = ch.err_tail.lock() {
+            g.clear(); // what the child wrote for earlier cases (the parser prints its error reports to stderr)
+        }
         let sent = {
             let si = ch.proc_.stdin.as_mut().expect("stdin");
             writeln!(si, "{}", line).and_then(|_| si.flush()).is_ok()
